@@ -1,12 +1,13 @@
 import RgVerif.Model.Sx
 import RgVerif.Model.Walk
+import RgVerif.Model.WalkEvents
 import RgVerif.Spec.Reach
 /-
 Driver of C06.
 
   c06.walk <which> (cfg (depth d|-) (size s|-) (follow 0|1) (samefs 0|1) (filter n…|-)) (forest N…) (roots N…)
 
-`which` ∈ serial | parallel | reach | guard.  Nodes: `(f name size)`, `(d name ino dev (ign n…) kids…)`,
+`which` ∈ serial | events (the operational walkdir / WalkEventIter / Walk::next model) | parallel | reach | guard.  Nodes: `(f name size)`, `(d name ino dev (ign n…) kids…)`,
 `(l name len -)`, `(l name len (f size))`, `(l name len (d ino))`.  `forest` is the whole file system the
 roots live in (links may point anywhere in it); `roots` the paths given to the walker.
 Ignore rule of the harness: an entry is ignored iff its name is listed in the ignore file of an entered
@@ -76,6 +77,10 @@ def handle (cmd : String) (args : List Sx) : String :=
       let fuel := (dirInosL forest).length + 1
       match which with
       | "serial" => showOuts (serial cfg forest fuel roots)
+      | "events" =>
+        match serialEvents cfg forest 400000 roots with
+        | some os => showOuts os
+        | none => "fuel"
       | "parallel" => showOuts (parallel cfg forest fuel roots)
       | "reach" => showOuts (reach cfg forest fuel roots)
       | "guard" => if hazardFree cfg forest fuel roots then "1" else "0"
